@@ -653,10 +653,11 @@ class ViewParameter(AbstractParameter, ParameterListener):
             # example: torch.tensor([0,1,2])[1:2] == torch.tensor([1])
             indices = data['indices']
         elif isinstance(data['indices'], list):
-            if isinstance(data['indices'], int):
-                indices = torch.LongTensor(data['indices'])
-            elif isinstance(data['indices'], bool):
+            # the type of the elements (bool is a subclass of int)
+            if all(isinstance(index, bool) for index in data['indices']):
                 indices = torch.BoolTensor(data['indices'])
+            elif all(isinstance(index, int) for index in data['indices']):
+                indices = torch.LongTensor(data['indices'])
         elif isinstance(data['indices'], str):
             # [ <first element to include> : <first element to exclude> : <step> ]
             slice_indexes = data['indices'].split(':')
